@@ -31,11 +31,17 @@ structure Opaque (tag : String) where
   val : Nat
 deriving DecidableEq, Repr
 
+/-- an argument of a recorded call, flattened (a structure is the concatenation of its fields) -/
+inductive Atom
+  | int (i : Int) | str (s : String) | tok (n : Nat) | bool (b : Bool)
+deriving DecidableEq, Repr
+
 /-- a recorded call on something outside the translated code -/
 structure Eff where
   name : String
   args : List Int
   strs : List String := []     -- label values of a metric call
+  vals : List (List Atom) := [] -- arguments of a call on a shared object of the repository, one list per argument
 deriving DecidableEq, Repr
 
 /-! ### maps -/
